@@ -374,6 +374,14 @@ def main():
     rnd.shuffle(seqs)
     import multiprocessing as mp
     jobs = [(s, k, timeout_ms, max_paths) for s in seqs]
+    extra = []
+    if rep.tier == "quick":
+        # the smallest histories that build three-key structure: insert three distinct keys, then
+        # one more operation (a node with a lone Node child only arises with >= 3 keys)
+        extra = [s for s in sequences(3, 4) if len(s) == 4 and [op for op, _ in s[:3]] == ["put"] * 3
+                 and sorted(key for _, key in s[:3]) == [0, 1, 2]
+                 and s[3] in (("remove", 0), ("remove", 2), ("put", 1))]
+        jobs += [(s, 3, timeout_ms, 400000) for s in extra]
     with mp.Pool(16) as pool:
         results = pool.map(check_sequence, jobs, chunksize=1)
     for r in results:
@@ -395,7 +403,8 @@ def main():
             rep.obligations -= 1
             rep.inconc(inc)
     rep.functions = ["%dict.{new,put,remove,get,has?,count,entries} and every helper they call (std/dict.qv, std/num.qv, std/int.qv) as compiled into the driver"]
-    rep.bounds = {"distinct keys": k, "operations per history": L, "histories": len(seqs),
+    rep.bounds = {"distinct keys": k, "operations per history": L, "histories": len(seqs) + len(extra),
+                  "additional histories (quick)": "%d histories over 3 keys: three inserts of distinct keys, then any one operation" % len(extra),
                   "hashes": "every assignment of 32-bit hashes to the keys (free bit-vectors)",
                   "values": "free 64-bit integers"}
     rep.extra["histories"] = len(seqs)
